@@ -124,6 +124,8 @@ def make_invocation(rng, world, with_faults):
           "_lib": {"rule": e["rel"], "input": inp, "type": "binary" if binary else "assembly", "search": "all" if all_matches else "first",
                    "only_addr": only_addr, "macros": macros},
           "_tag": f"{e['family']}:{e['variant']}"}
+    if rng.random() < 0.08:
+        op["warnings_error"] = True  # python -W error: a warning anywhere on the way becomes an exception
     if usage is None and rng.random() < 0.15:
         # the working directory has seen earlier runs: old log files, a file with today's very name, a symlinked logs/
         op["_prelogs"] = rng.choice(["old_files", "same_name", "symlink"])
@@ -157,6 +159,8 @@ def lib_ops(op):
     envf = [f for f in (op.get("faults") or []) if not f["kind"].startswith("log_") and f.get("target") not in ("logs",) and not str(f.get("target", "")).startswith("logs")]
     base = {"op": "match", "rule": lib["rule"], "input": lib["input"], "type": lib["type"], "search": lib["search"],
             "only_addr": lib["only_addr"], "macros": lib["macros"], "faults": envf}
+    if op.get("warnings_error"):
+        base["warnings_error"] = True
     return {**base, "ret": "bool"}, {**base, "ret": "list"}
 
 
@@ -250,6 +254,10 @@ def calibrate(files, op, got, runner):
     env["PYTHONPATH"] = os.path.join(ex.REPO, "src")
     env["PYTHONDONTWRITEBYTECODE"] = "1"
     env["PYTHONHASHSEED"] = "0"
+    if op.get("warnings_error"):
+        env["PYTHONWARNINGS"] = "error"
+    else:
+        env.pop("PYTHONWARNINGS", None)
     bindir = None
     undo = []
     try:
